@@ -397,6 +397,9 @@ func (e *c24Exec) loadsSince(L *c24Load) int {
 
 // ---- generation
 
+var c24UTCOffsets = []int64{0, 3 * 3600, -5 * 3600, 3*86400 + 3*3600, 5*3600 + 1800, 5*3600 + 2700, -(3*3600 + 1800), 12*3600 + 2700,
+	3*86400 + 5*3600 + 1800, 4*86400 - (3*3600 + 1800), 9*3600 + 1800, -(9*3600 + 1800)}
+
 func c24GenPool(rnd *rand.Rand, base int64) []c24Range {
 	var pool []c24Range
 	add := func(from, to int64) {
@@ -478,6 +481,19 @@ func c24GenOps(rnd *rand.Rand, pool []c24Range, keys int, n int, depth int, bigR
 					s = (r.from/3600)*3600 + rnd.Int64N(3600) // same hour, maybe outside
 				case 5:
 					s = (r.from/60)*60 + rnd.Int64N(60) // same minute, maybe outside
+				case 6:
+					if d := r.to - r.from; d >= 3*3600 { // first, a middle or the last hour of a long range
+						switch rnd.IntN(3) {
+						case 0:
+							s = r.from + rnd.Int64N(3600)
+						case 1:
+							s = r.from + 3600 + rnd.Int64N(d-2*3600)
+						default:
+							s = r.to - 1 - rnd.Int64N(3600)
+						}
+					} else {
+						s = r.from + rnd.Int64N(d)
+					}
 				default:
 					s = r.from + rnd.Int64N(r.to-r.from)
 				}
@@ -507,7 +523,8 @@ func c24RunHistory(r *verifkit.Run, w *verifkit.Worker, idx int) (failed bool) {
 	base := int64(1_700_000_000) + rnd.Int64N(86400*30)
 	e := &c24Exec{r: r, w: w, qs: map[int32]*queryBuilder{}, desc: &strings.Builder{}, h: &requestHandler{Handler: &Handler{}}}
 	e.maxSize = []int{3, 8, 20, 60, 200, 1000}[rnd.IntN(6)]
-	e.utcOff = []int64{0, 3 * 3600, -5 * 3600, 3*86400 + 3*3600}[rnd.IntN(4)]
+	// what calcUTCOffset can produce: whole hours, :30 / :45 zones, plus whole days for the week start
+	e.utcOff = c24UTCOffsets[rnd.IntN(len(c24UTCOffsets))]
 	e.vnow = base*c24Sec + rnd.Int64N(c24Sec)
 	e.pool = c24GenPool(rnd, base)
 	keys := 1 + rnd.IntN(2)
@@ -533,7 +550,7 @@ func c24RunHistory(r *verifkit.Run, w *verifkit.Worker, idx int) (failed bool) {
 func TestVerifC24(t *testing.T) {
 	r := verifkit.Start(t, "C24", "pcache")
 	defer r.Finish()
-	r.SetRule("histories of 20-80 operations (get over a pool of ~10 fixed ranges per history: one second, one minute, unaligned across minute/hour boundaries, whole hours, before / straddling / leaving the 48 h mutable window, reaching into the future; 1-3 query keys; avoidCache; failing loads; invalidate of 1-3 seconds chosen at range edges, interiors and same-hour/minute neighbours; clock steps of 0 ns..50 h concentrated around the 15 s linger) against the real pointsCache with a virtual clock, approxMaxSize 3..1000 and four utc offsets. A third of the loads run nested operations (clock steps, invalidations, gets of the same or other ranges) inside the loader callback, i.e. between the cache's freshness check and its store. One case = one successful non-avoidCache get judged against the reference model; non-trivial = an entry for (query, range) was cached before the call and either a second of the range inside the window had been invalidated or the range lay wholly outside the window; distinct = (served/reloaded class, number of relevant invalidations, nesting depth, span class, window class, later loads of the same query).")
+	r.SetRule("histories of 20-80 operations (get over a pool of ~10 fixed ranges per history: one second, one minute, unaligned across minute/hour boundaries, whole hours, before / straddling / leaving the 48 h mutable window, reaching into the future; 1-3 query keys; avoidCache; failing loads; invalidate of 1-3 seconds chosen at range edges, interiors and same-hour/minute neighbours; clock steps of 0 ns..50 h concentrated around the 15 s linger) against the real pointsCache with a virtual clock, approxMaxSize 3..1000 and twelve utc offsets (whole hours, :30 and :45 zones, with and without week-start days; ranges of 3-8 hours with invalidations in their first, middle and last hour). A third of the loads run nested operations (clock steps, invalidations, gets of the same or other ranges) inside the loader callback, i.e. between the cache's freshness check and its store. One case = one successful non-avoidCache get judged against the reference model; non-trivial = an entry for (query, range) was cached before the call and either a second of the range inside the window had been invalidated or the range lay wholly outside the window; distinct = (served/reloaded class, number of relevant invalidations, nesting depth, span class, window class, later loads of the same query).")
 	r.Assume("the virtual clock never goes back (steps >= 0)")
 	r.Assume("a second exactly on the edge of the 48 h window is treated as outside by the reference (the code treats it as inside, which is only more conservative)")
 	n := r.N(20000, 1500000)
